@@ -575,6 +575,12 @@ def list_method(ex, ref, ho, name, args, kwargs):
 
 def list_extend(ex, ref, v):
     ho = ex.wobj(ref)
+    if ex.skeleton and isinstance(v, Unknown):
+        # skeleton profile: extended by an uninterpreted iterable -> an arbitrary list
+        ex.abstraction_used = True
+        ho.items = None
+        ho.sym = ex.fresh_sym(('seq', ('opq', 'unknown')), 'ext')
+        return
     items = ex.concrete_iter(v)
     if ho.items is not None and items is not None:
         ho.items.extend(items)
